@@ -38,6 +38,7 @@ RULE = ('X = arbitrary Unicode text (raw, or wrapped in comment tokens), a "gram
         'targeted "corrupt the last annotation line of a part" and "insert k lines above a fault" cases and a '
         'scanner_main --warn-error run with a stubbed source scanner; non-trivial = X produced at least one '
         'diagnostic and X\'s own block survived; distinct = hash of the case')
+RULE = RULE + ' ' + "A hit of the parser's catch-all ('unrecoverable parse error') is a violation; the thorough tier adds a coverage-guided stage (atheris over the same strategy)."
 ASSUMPTIONS = [
     'diagnostics are observed by a MessageLogger subclass that records every log() call and then delegates to the '
     'code under test; MessageLogger._instance is replaced at the top of every parse',
